@@ -572,8 +572,8 @@ def expand_locals(expr, func, depth=3):
             if isinstance(n.ctx, ast.Load) and n.id in defs and len(defs[n.id]) == 1 and defs[n.id][0] is not None:
                 return defs[n.id][0]
             return n
-    import copy
-    e = copy.deepcopy(expr)
+    from .wattr import clone
+    e = clone(expr)
     for _ in range(depth):
         e = T().visit(e)
     return src(e)
